@@ -612,7 +612,9 @@ def case_solver(case):
 def default_unwind(case):
     if case.unwind: return case.unwind
     n = max([b.n for b in case.bufs] + [8])
-    return 4 * n + 64
+    # goto-style nested loops out of clang (odometer index loops of rank-r views/permutations) are counted by cbmc across
+    # the iterations of the enclosing loop: r * n back-edges for rank r <= 6, hence 8n (4n was too small for rank 6, n = 144)
+    return 8 * n + 64
 
 def stage_translate(args):
     """worker: compile one configuration group, translate every case in it. Returns list of per-case dicts."""
